@@ -36,6 +36,8 @@ _POOLS = [
 ]
 POOL = _POOLS[_SEED % 2]
 IDS = [[3, 7, 10], [12, 5, 8], [100, 2, 30]][(_SEED // 2) % 3]
+# identifiers that are large and close to each other (survey-style ids), met in non-sorted order
+IDS_LARGE = [2019002, 2019001, 2019003]
 COLS = ['x2', 'id', 'c2', 'x1']
 PARAMS = [dict(b1=0.5, b2=-0.75, s=0.25), dict(b1=-0.25, b2=0.5, s=1.0)]
 
@@ -84,6 +86,9 @@ def tasks(tier, seed):
         n = len(comp)
         for ids in itertools.permutations(IDS, n):
             t.append(dict(comp=list(comp), ids=list(ids), tier=tier))
+        if n >= 2 and (tier == 'thorough' or sum(comp) <= 3):
+            for ids in itertools.permutations(IDS_LARGE, n):
+                t.append(dict(comp=list(comp), ids=list(ids), tier=tier))
     return t
 
 
